@@ -22,6 +22,8 @@ for fn in sorted(os.listdir(d)):
         c["shards_completed"], c["shards"], c["shards_inconclusive"], e["wall_s"]))
 print("\nTotal cases: %d\n" % tot)
 print("## Parts\n")
+print("For a `cover-<part>` row the columns `cases` / `non-trivial` count the campaign's executions plus the sample of its non-trivial cases that")
+print("the worker re-ran through the plain check (every 50th); the campaign's own count of non-trivial cases is in the last column.\n")
 print("| property | part | cases | non-trivial | slowest case s | timeouts | fuzz executions (corpora; notes) |")
 print("|---|---|---|---|---|---|---|")
 for fn in sorted(os.listdir(d)):
@@ -31,5 +33,5 @@ for fn in sorted(os.listdir(d)):
     for k, p in e["coverage"]["parts"].items():
         fz = "-"
         if "fuzz_execs" in p or "fuzz_notes" in p:
-            fz = "%d (%s%s)" % (p.get("fuzz_execs", 0), "+".join(p.get("fuzz_corpora", [])), ("; " + "; ".join(p["fuzz_notes"])) if p.get("fuzz_notes") else "")
+            fz = "%d%s (%s%s)" % (p.get("fuzz_execs", 0), (", %d non-trivial in the campaign" % p["fuzz_nontrivial"]) if "fuzz_nontrivial" in p else "", "+".join(p.get("fuzz_corpora", [])), ("; " + "; ".join(p["fuzz_notes"])) if p.get("fuzz_notes") else "")
         print("| %s | %s | %d | %d | %.2f | %d | %s |" % (e["property_id"], k, p["evaluations"], p["nontrivial"], p.get("slowest_s", 0), p.get("timeouts", 0), fz))
